@@ -2,7 +2,7 @@
     Python harness.  A case is a program: a list of operations over graph registers, each operation a
     [list Z]; running it yields one [list Z] per operation.  All decoding/encoding is done here, in
     Gallina, so the OCaml driver is a dumb pipe. *)
-From DynVerif Require Import Base Graph Derived Annotate Paths.
+From DynVerif Require Import Base Graph Derived Annotate Paths IO.
 
 Definition oz (has x : Z) : option Z := if has =? 0 then None else Some x.
 Definition zb (b : bool) : Z := if b then 1 else 0.
@@ -71,6 +71,29 @@ Fixpoint dec_paths (fuel : nat) (l : list Z) : list path :=
 Definition enc_annotated (a : annotated) : list Z :=
   enc_paths (a_shortest a) ++ enc_paths (a_fastest a) ++ enc_paths (a_foremost a)
   ++ enc_paths (a_fastest_shortest a) ++ enc_paths (a_shortest_fastest a).
+
+Fixpoint triples_of (l : list Z) : list (Z * Z * Z) :=
+  match l with a :: b :: c :: r => (a, b, c) :: triples_of r | _ => [] end.
+(** snapshot rows: u v t he e *)
+Fixpoint dec_srows (fuel : nat) (l : list Z) : list srow :=
+  match fuel with
+  | O => []
+  | S f => match l with
+           | u :: v :: t :: he :: e :: r => (u, v, t, oz he e) :: dec_srows f r
+           | _ => []
+           end
+  end.
+Fixpoint dec_irows (l : list Z) : list irow :=
+  match l with u :: v :: op :: t :: r => (u, v, bz op, t) :: dec_irows r | _ => [] end.
+(** lines: (len, codes...)* *)
+Fixpoint dec_lines (fuel : nat) (l : list Z) : list line :=
+  match fuel with
+  | O => []
+  | S f => match l with
+           | [] => []
+           | n :: r => firstn (Z.to_nat n) r :: dec_lines f (skipn (Z.to_nat n) r)
+           end
+  end.
 
 Definition regs := list graph.
 Definition getr (rs : regs) (r : Z) : graph := nth (Z.to_nat r) rs (empty_graph false true).
@@ -181,6 +204,46 @@ Definition step_op (rs : regs) (op : list Z) : regs * list Z :=
            end)
   | 63 :: l => (rs, enc_annotated (annotate_paths (dec_paths (S (length l)) l)))
   | 64 :: l => (rs, flat_pairs (compact_timeslot l))
+  (* --- readers / writers --- *)
+  | 70 :: r :: _ => (rs, flat_map (fun x => [fst (fst x); snd (fst x); snd x]) (gen_snapshots (getr rs r)))
+  | 71 :: dst :: dir :: l =>
+      (match parse_snapshots (bz dir) (dec_srows (S (length l)) l) with
+       | RdOk g => (setr rs dst g, [0])
+       | RdErr o => (rs, [out_code o])
+       end)
+  | 72 :: r :: _ => (rs, flat_map (fun x => match x with (u, v, op, t) => [u; v; zb op; t] end) (gen_interactions (getr rs r)))
+  | 73 :: dst :: dir :: l =>
+      (match parse_interactions (bz dir) (dec_irows l) with
+       | RdOk g => (setr rs dst g, [0])
+       | RdErr o => (rs, [out_code o])
+       end)
+  | 74 :: r :: _ =>
+      let d := node_link_data (getr rs r) in
+      (rs, zb (match nl_directed d with Some b => b | None => false end) :: nl_graph d :: Z.of_nat (length (nl_nodes d))
+           :: flat_pairs (nl_nodes d) ++ flat_map (fun x => [fst (fst x); snd (fst x); snd x]) (nl_links d))
+  | 75 :: dst :: hasdir :: dirflag :: dirarg :: ga :: nn :: l =>
+      let nodes := pairs_of (firstn (2 * Z.to_nat nn) l) in
+      let links := triples_of (skipn (2 * Z.to_nat nn) l) in
+      (match node_link_graph (mkNL (if bz hasdir then Some (bz dirflag) else None) ga nodes links) (bz dirarg) with
+       | RdOk g => (setr rs dst g, [0])
+       | RdErr o => (rs, [out_code o])
+       end)
+  | 76 :: dst :: kind :: dir :: m :: hd :: d :: keys :: l =>
+      let ls := dec_lines (S (length l)) l in
+      (match (if kind =? 0 then read_snapshots_text (bz dir) m (oz hd d) (bz keys) ls
+              else read_interactions_text (bz dir) m (oz hd d) (bz keys) ls) with
+       | TxOk g => (setr rs dst g, [0])
+       | TxTypeError => (rs, [6])
+       | TxErr o => (rs, [out_code o])
+       end)
+  | 77 :: kind :: d :: l =>
+      (* render rows as text: kind 0 snapshot rows (u v t)*, kind 1 interaction rows (u v op t)* *)
+      (rs, if kind =? 0 then flat_map (fun x => let ln := render_snap_row d x in Z.of_nat (length ln) :: ln) (triples_of l)
+           else flat_map (fun x => let ln := render_int_row d x in Z.of_nat (length ln) :: ln) (dec_irows l))
+  | 78 :: r :: d :: _ =>
+      (rs, flat_map (fun x => let ln := render_snap_row d x in Z.of_nat (length ln) :: ln) (gen_snapshots (getr rs r)))
+  | 79 :: r :: d :: _ =>
+      (rs, flat_map (fun x => let ln := render_int_row d x in Z.of_nat (length ln) :: ln) (gen_interactions (getr rs r)))
   | _ => (rs, [-999])
   end.
 
